@@ -19,7 +19,7 @@ pub struct Case {
 
 /// Under Ident: does the class set (given as (quotient, remainder) pairs) contain a shifted run,
 /// a wrap-around, or a full table?  Returns (shifted_run, wraps).
-fn layout(q: usize, quots: &[usize]) -> (bool, bool) {
+pub fn layout(q: usize, quots: &[usize]) -> (bool, bool) {
     let n = 1usize << q;
     let mut c = vec![0usize; n];
     for &x in quots {
